@@ -426,12 +426,16 @@ fn spec_json(spec: &TxSpec) -> Value {
     json!({
         "scripts": spec.scripts.iter().map(|(p, s, salt)| json!({"prog": p.name, "ver": p.ver, "slot": format!("{:?}", s), "salt": salt})).collect::<Vec<_>>(),
         "type_id": spec.type_id,
+        "fake_type_id": spec.fake_type_id,
     })
 }
 fn spec_name(spec: &TxSpec) -> String {
     let mut s: Vec<String> = spec.scripts.iter().map(|(p, sl, _)| format!("{}.v{}{}", p.name, p.ver, match sl { Slot::Lock => "", Slot::Lock2 => "x2", Slot::TypeOut => "@type" })).collect();
     if spec.type_id {
         s.push("TYPE_ID".into());
+    }
+    if spec.fake_type_id > 0 {
+        s.push(format!("TYPE_ID_code_hash_as_data{}", spec.fake_type_id - 1));
     }
     s.join("+")
 }
@@ -448,7 +452,7 @@ fn spec_from_json(v: &Value, progs: &[Prog]) -> TxSpec {
         };
         scripts.push((p, slot, s["salt"].as_u64().unwrap() as u8));
     }
-    TxSpec { scripts, type_id: v["type_id"].as_bool().unwrap_or(false) }
+    TxSpec { scripts, type_id: v["type_id"].as_bool().unwrap_or(false), fake_type_id: v["fake_type_id"].as_u64().unwrap_or(0) as u8 }
 }
 
 fn coq_cause(c: &Cause) -> String {
@@ -519,6 +523,22 @@ fn check_budget(w: &Whole, max: u64, r: &Res) -> Option<String> {
     None
 }
 
+/// some chunk consumed at least SPAWN_YIELD_CYCLES_BASE (800) more than its limit: it was cut by the unchecked yield / spawn
+/// charge of a spawn-family syscall (smaller overshoots also come from other unchecked charges and do not count)
+fn overshoot(susp: &[Susp]) -> bool {
+    let mut prev: Option<(usize, u64)> = None;
+    for s in susp {
+        if let Some(p) = s.progress {
+            let before = match prev { Some((g, q)) if g == s.current => q, _ => 0 };
+            if p.saturating_sub(before) >= s.limit.saturating_add(800) { return true; }
+            prev = Some((s.current, p));
+        } else {
+            prev = None;
+        }
+    }
+    false
+}
+
 /// a chunked run that came to an end must agree with the unlimited run
 fn check_chunk_end(w: &Whole, e: &End) -> Option<String> {
     let r = match e {
@@ -540,12 +560,16 @@ fn gen_specs(rng: &mut Rng, progs: &[Prog], thorough: bool) -> Vec<TxSpec> {
     let mut specs = Vec::new();
     // every program alone
     for p in progs {
-        specs.push(TxSpec { scripts: vec![(p.clone(), Slot::Lock, 0)], type_id: false });
+        specs.push(TxSpec { scripts: vec![(p.clone(), Slot::Lock, 0)], type_id: false, fake_type_id: 0 });
     }
     // regression corpus: the shapes of script/src/verify/tests
     let find = |n: &str, v: u8| progs.iter().find(|p| p.name == n && p.ver == v).unwrap().clone();
-    specs.push(TxSpec { scripts: vec![(find("always_success", 1), Slot::Lock, 0)], type_id: true });
-    specs.push(TxSpec { scripts: vec![(find("always_success", 2), Slot::Lock2, 0), (find("cpop_lock", 1), Slot::Lock, 0)], type_id: true });
+    specs.push(TxSpec { scripts: vec![(find("always_success", 1), Slot::Lock, 0)], type_id: true, fake_type_id: 0 });
+    for k in 1..=3u8 {
+        specs.push(TxSpec { scripts: vec![(find("always_success", 1), Slot::Lock, 0)], type_id: false, fake_type_id: k });
+        specs.push(TxSpec { scripts: vec![(find("always_success", 2), Slot::Lock, 0)], type_id: true, fake_type_id: k });
+    }
+    specs.push(TxSpec { scripts: vec![(find("always_success", 2), Slot::Lock2, 0), (find("cpop_lock", 1), Slot::Lock, 0)], type_id: true, fake_type_id: 0 });
     let floating: Vec<&Prog> = progs.iter().filter(|p| p.deps.is_empty() && p.witness.is_none()).collect();
     let anchored: Vec<&Prog> = progs.iter().filter(|p| !p.deps.is_empty() || p.witness.is_some()).collect();
     let n_multi = if thorough { 260 } else { 36 };
@@ -578,7 +602,7 @@ fn gen_specs(rng: &mut Rng, progs: &[Prog], thorough: bool) -> Vec<TxSpec> {
         if scripts.is_empty() {
             continue;
         }
-        specs.push(TxSpec { scripts, type_id: rng.chance(1, 3) });
+        specs.push(TxSpec { scripts, type_id: rng.chance(1, 3), fake_type_id: 0 });
     }
     specs
 }
@@ -694,6 +718,34 @@ fn process_tx(spec: &TxSpec, cons: &Arc<ckb_chain_spec::consensus::Consensus>, r
     // scripts that keep more than MAX_INSTANTIATED_VMS (4) VMs alive and talk over pipes
     let many_vms = spec.scripts.iter().any(|(p, _, _)| p.name == "spawn_cycles" || p.name == "spawn_create_17_spawn" || p.name == "spawn_cases_10");
     let whole_res = cx.verify(u64::MAX);
+    if spec.fake_type_id > 0 {
+        // a group that resolves to no cell: the transaction fails the same way however it is executed (no Coq case:
+        // the model's groups are measured by running them)
+        bump!("transactions_with_unresolvable_group");
+        let mut obs: Vec<(String, Res)> = vec![];
+        obs.push(("verify(u64::MAX - 1)".into(), cx.verify(u64::MAX - 1)));
+        for lim in [u64::MAX, 1_000_000_000u64, 700] {
+            let mut r2 = rng.fork();
+            let strat = Strat::Growing(lim);
+            let mut lm = limiter(&strat, &mut r2);
+            let run = run_chunks(&cx, true, &mut lm, 40);
+            drop(lm);
+            let r = match &run.end { End::Done(c) => Res::Ok(*c), End::Err(e) => Res::Err(e.clone()), End::Panic(p) => Res::Panic(p.clone()), End::Open => Res::Panic("still suspended after 40 chunks".into()) };
+            obs.push((format!("resumable_verify / resume_from_state, limits growing by {lim}"), r));
+        }
+        obs.push(("resumable_verify_with_signal(u64::MAX), no command".into(), run_signal(&cx, rt, u64::MAX, &Sig::Timed(vec![])).0));
+        obs.push(("resumable_verify_with_signal(u64::MAX), Suspend / Resume".into(), run_signal(&cx, rt, u64::MAX, &Sig::Timed(vec![(0, 0), (200, 1)])).0));
+        for (how, r) in obs {
+            t.evaluations += 1;
+            if !r.same_verdict(&whole_res) {
+                t.viol.push(Violation { what: format!("{name}: {how} answers {} but verify(u64::MAX) answers {}", res_json(&r), res_json(&whole_res)), detail: json!({"tx": sj, "tx_name": name}), signature: None });
+            }
+        }
+        if matches!(whole_res, Res::Ok(_)) {
+            t.viol.push(Violation { what: format!("{name}: a script whose code cell does not exist verified: {}", res_json(&whole_res)), detail: json!({"tx": sj}), signature: None });
+        }
+        return t;
+    }
     let groups = match measure_groups(&cx) {
         Ok(g) => g,
         Err(e) => {
@@ -835,7 +887,12 @@ fn process_tx(spec: &TxSpec, cons: &Arc<ckb_chain_spec::consensus::Consensus>, r
         // (or the script's own cycle self-check fails: spawn_cycles exits with 31)
         let swap = many_vms && matches!(w.res, Res::Ok(_))
             && matches!(&end_res, Some(r) if !r.same_verdict(&w.res) && (matches!(r, Res::Ok(_)) || matches!(r, Res::Err(TErr { cause: Cause::Script(c), .. }) if *c >= 1000 && *c < 1256)));
-        let chunk_sig: Option<&str> = if io { Some(SIG_IO) } else if swap { Some(SIG_SWAP) } else { None };
+        // the same skipped process_io, ending differently: a chunk whose consumption overshot its limit was cut by the
+        // unchecked charge of a spawn-family syscall (ordinary instructions never cross the limit); the pending message is
+        // handled one iteration late after the resume, the VMs run in another order, and a script whose root VM exits while a
+        // child is still running (spawn_cases 13) completes with another total
+        let io_total = uses_pipes && matches!(w.res, Res::Ok(_)) && matches!(&end_res, Some(Res::Ok(c)) if *c != cost) && overshoot(&run.susp);
+        let chunk_sig: Option<&str> = if io || io_total { Some(SIG_IO) } else if swap { Some(SIG_SWAP) } else { None };
         if let Some(sg) = chunk_sig {
             runj["known_class"] = json!(sg);
         }
@@ -943,8 +1000,10 @@ fn process_tx(spec: &TxSpec, cons: &Arc<ckb_chain_spec::consensus::Consensus>, r
         if let Some(msg) = check_budget(&w, limit, &r) {
             // known class: every Resume restarts the group's cycle budget
             let known = limit < w.cost && n > 0 && (r.same_verdict(&w.res) || matches!(&r, Res::Err(TErr { cause: Cause::Other, .. })));
+            // known class: a many-VM spawn script completes with another total when it is interrupted (the same totals as in chunks)
+            let swap = many_vms && n > 0 && limit >= w.cost && matches!(w.res, Res::Ok(_)) && matches!(&r, Res::Ok(c) if *c != w.cost);
             t.viol.push(Violation { what: format!("{name}: resumable_verify_with_signal({limit}) with {n} suspend/resume pairs: {msg}"), detail: mk_detail(runj),
-                                    signature: if known { Some(SIG_SIGNAL.into()) } else { None } });
+                                    signature: if known { Some(SIG_SIGNAL.into()) } else if swap { Some(SIG_SWAP.into()) } else { None } });
         }
     }
     if cx.pauses {
